@@ -695,8 +695,20 @@ def get_attr(ex, st, o, attr, node=None):
         raise Unsupported("row attribute " + attr)
     if isinstance(v, Obj):
         return obj_attr(ex, st, o, v, attr, node)
+    if isinstance(v, SuperProxy):
+        cname = v.cls if isinstance(v.cls, str) else getattr(v.cls, "name", v.cls)
+        fnode, ci, m = find_method(ex, cname, attr, skip=1)
+        if fnode is None or not isinstance(fnode, ast.FunctionDef):
+            raise Unsupported("super().%s" % attr)
+        if fnode.decorator_list:
+            raise Unsupported("super() to a decorated method")
+        return [(st, Func("repo", "%s::%s.%s" % (m.rel, ci.name, attr), bound=v.selfref))]
     if isinstance(v, ClassV):
         return class_attr(ex, st, v, attr)
+    if isinstance(v, Func) and v.kind == "builtin" and v.target == "pandas.Series" and (Vec, attr) in METHODS:
+        # unbound method of Series (pd.Series.median passed around as an estimator): first argument is the receiver
+        m = METHODS[(Vec, attr)]
+        return [(st, Func("method", lambda ex, st, args, kwargs, node, m=m: m(ex, st, args[0], list(args[1:]), kwargs, node)))]
     for cls in type(v).__mro__:
         if (cls, attr) in METHODS:
             return [(st, bound(METHODS[(cls, attr)], o))]
